@@ -9,6 +9,9 @@ BUILT = {
  "C03": ("exploration", "runtime monitor: differential trace checking of per-line variables and counters (LineEvent hook vs reference fold) plus model-independent conservation monitors on scan_count/match_count",
          "Generated variable-writing programs (assignments, tracking keys, stacks, aggregates with name qualifiers, onmatch) x files; after every line the visible variables, scan_count and match_count of the real run are compared with the reference evaluator; known findings F1/F9b attributed by exact emulation.",
          "vfy/model.py is the oracle for variable folds; internal '_intx_' bookkeeping variables excluded", "DESIGN.md#c03"),
+ "C04": ("exploration", "runtime monitor: recording property on CsvPath.is_valid (ValidEvents with cause frame; online 'never False->True'), LineEvent verdict per line vs reference execution set, and archive/manager aggregation checks on real CsvPaths runs",
+         "Generated fail()/fail_and_stop()/error programs under all 16 no-raise policies are run and the verdict after every line, the site that changed it and the collected error lines are compared with the documented execution set; groups of 1-4 members are run through the six CsvPaths methods and results_manager.is_valid / run manifest all_valid / member manifest valid are compared with the members' verdicts and with standalone runs.",
+         "vfy/model.py execution set; allowed verdict-changing sites listed in the check", "DESIGN.md#c04"),
  "C05": ("fault_enumeration", "runtime monitor: real runs over the full error-policy truth table (2^6 policies x fault kind x fault position x validation-mode override) observed by LineEvent and ErrorHandler hooks",
          "Every cell of the policy table is executed; per run the monitors observe whether an exception escaped, what was collected (with line numbers), validity, where the run stopped, what the printers received and which lines matched, and compare with the conjunction of effective flags.",
          "truth table written from the property statement / docs/config.md; 'match' override: no claim about the faulting line's match", "DESIGN.md#c05"),
